@@ -12,7 +12,7 @@ Inductive bop :=
 | BPeek (n : nat).
 
 Inductive c12_case :=
-| CStream (thr : nat) (maxb : option nat) (ops : list op) (sc : list sstep)
+| CStream (conn : option bool) (thr : nat) (maxb : option nat) (ops : list op) (sc : list sstep)
 | CBuf (thr : nat) (bops : list bop).
 
 (* deterministic payload: byte i is (start + i) mod 251 *)
@@ -45,6 +45,9 @@ Definition enc_event (e : event) : obs :=
   | EFail id => OList [OTag "fail"; onat id]
   | EReady b => OList [OTag "ready"; OBool b]
   | EClose => OTag "close"
+  | EConnect => OTag "connect"
+  | EConnected => OTag "connected"
+  | EConnFail => OTag "connfail"
   | ECrash => OTag "assert"
   | EFuel => OTag "fuel"
   | ESnap sz i dn lis fp sh =>
@@ -84,10 +87,24 @@ Fixpoint run_bops (t : nat) (ops : list bop) (b : sbuf) : list obs :=
       (if n =? 0 then OTag "assert" else dig (peek n b)) :: run_bops t ops' b
   end.
 
+(* the same sequence through the whole-sequence interpreter [q_impl] *)
+Fixpoint to_qops (ops : list bop) : list qop :=
+  match ops with
+  | [] => []
+  | BAppend s len :: ops' => QAppend (pat s len) :: to_qops ops'
+  | BAdvance n :: ops' => QAdvance n :: to_qops ops'
+  | BPeek _ :: ops' => to_qops ops'
+  end.
+Definition q_obs (t : nat) (bops : list bop) : obs :=
+  match q_impl t (to_qops bops) empty_buf with
+  | Some b => dig (abs b)
+  | None => OTag "assert2"
+  end.
+
 Definition run_case (c : c12_case) : obs :=
   match c with
-  | CStream t m ops sc => enc_trace (tr (run_ops ops (init t m sc)))
-  | CBuf t bops => OList (run_bops t bops empty_buf)
+  | CStream cn t m ops sc => enc_trace (tr (run_ops ops (init_with cn t m sc)))
+  | CBuf t bops => OList [OList (run_bops t bops empty_buf); q_obs t bops]
   end.
 
 (* ---------- the property as a checker on observables ---------- *)
@@ -112,6 +129,9 @@ Definition dec_event (o : obs) : option event :=
       if String.eqb s "full" then Some ERefuse
       else if String.eqb s "closed" then Some EClosedW
       else if String.eqb s "close" then Some EClose
+      else if String.eqb s "connect" then Some EConnect
+      else if String.eqb s "connected" then Some EConnected
+      else if String.eqb s "connfail" then Some EConnFail
       else if String.eqb s "assert" then Some ECrash
       else if String.eqb s "fuel" then Some EFuel
       else if String.eqb s "st-closed" then Some ESnapClosed
@@ -199,7 +219,7 @@ Fixpoint check_bops (ops : list bop) (ref : list N) (os : list obs) : bool :=
 
 Definition check_case (c : c12_case) (o : obs) : bool :=
   match c with
-  | CStream t m ops sc =>
+  | CStream cn t m ops sc =>
       match o with
       | OList [OList evs; OList cbs] =>
           match dec_all dec_event evs, dec_all dec_nat cbs with
@@ -211,7 +231,8 @@ Definition check_case (c : c12_case) (o : obs) : bool :=
       end
   | CBuf t bops =>
       match o with
-      | OList os => check_bops bops [] os
+      | OList [OList os; q] =>
+          check_bops bops [] os && obs_eqb q (dig (q_ref (to_qops bops) []))
       | _ => false
       end
   end.
